@@ -15,7 +15,7 @@ def build_network(net: Dict[str, Any]):
     from hivemon.gen import graph as G
 
     if net["type"] == "grid":
-        return OSMRoadNetwork(G.grid(net))
+        return OSMRoadNetwork(G.grid(net), default_speed_kmph=float(net.get("default_speed_kmph", 40.0)))
     if net["type"] == "denver":
         return OSMRoadNetwork(G.denver())
     if net["type"] == "manhattan":
